@@ -11,7 +11,8 @@ import (
 // ---------------------------------------------------------------- execution on the real lexer
 
 // lexObs runs rsql.NewLexer over the input: one `e <type> <pos>` line per lexical error the
-// lexer recorded during a NextToken call, then that call's `t <type> <value> <pos>` line.
+// lexer recorded during a NextToken call, then that call's `t <type> <value> <pos> <line> <column> <prev>` line
+// (prev = readPreviousIdentifier() right after the call, through the verif accessor).
 func lexObs(input string) [][]string {
 	l := rsql.NewLexer(input)
 	er := rsql.NewErrorRecovery(nil)
@@ -23,7 +24,8 @@ func lexObs(input string) [][]string {
 		for _, e := range er.GetErrors()[n0:] {
 			out = append(out, []string{"e", strconv.Itoa(int(e.Type)), strconv.Itoa(e.Position)})
 		}
-		out = append(out, []string{"t", strconv.Itoa(int(tok.Type)), hx(tok.Value), strconv.Itoa(tok.Pos)})
+		out = append(out, []string{"t", strconv.Itoa(int(tok.Type)), hx(tok.Value), strconv.Itoa(tok.Pos),
+			strconv.Itoa(tok.Line), strconv.Itoa(tok.Column), hx(l.VerifReadPreviousIdentifier())})
 		if tok.Type == rsql.TokenEOF {
 			return out
 		}
